@@ -434,6 +434,12 @@ PostDeploy(s) == /\ Idle(s) /\ cont[s] = "postDeploy"
                  /\ IF stepCtx[s] THEN conn' = [conn EXCEPT ![s] = "closed"] /\ Go(s, ClosedEarly("enabling", FALSE), "exit")
                     ELSE conn' = [conn EXCEPT ![s] = "live"] /\ Go(s, <<[op |-> "SetA", stage |-> "enabling"], SC(Nil)>>, "awaitE")
                  /\ UNCHANGED <<rl, stage, state, prevStage, slotD, slotE, slotR, stepCtx, closedFlag, exec, execRes, sigNil, sigQ, resQ, wg, execStarted>>
+\* Only for trace validation (not part of Next): the recorder announces a cancellation just BEFORE it takes effect, so a
+\* step that looks at its context right after its deployment may still see it alive although the announcement is already
+\* in the trace; it then goes on to the enabling stage, where it meets the cancelled context.
+PostDeployLive(s) == /\ Idle(s) /\ cont[s] = "postDeploy" /\ stepCtx[s]
+                     /\ conn' = [conn EXCEPT ![s] = "live"] /\ Go(s, <<[op |-> "SetA", stage |-> "enabling"], SC(Nil)>>, "awaitE")
+                     /\ UNCHANGED <<rl, stage, state, prevStage, slotD, slotE, slotR, stepCtx, closedFlag, exec, execRes, sigNil, sigQ, resQ, wg, execStarted>>
 AwaitE(s) == /\ Idle(s) /\ cont[s] = "awaitE"
              /\ \/ slotE[s] = "T" /\ slotE' = [slotE EXCEPT ![s] = "empty"] /\ Go(s, <<F("disabled")>>, "tryR")
                 \/ slotE[s] = "F" /\ slotE' = [slotE EXCEPT ![s] = "empty"] /\ Go(s, DisabledScript, "exit")
